@@ -81,6 +81,8 @@ func runLinkedMapOrder[K comparable](c *core.Ctx, d *Dom[K]) {
 				c.Fail("order", "values", "%s.Values()[%d] = %d, the value of the %d-th inserted key %v is %d", name, i, vs[i], i, k, cur[k])
 			}
 		}
+		ruin(ks)
+		ruin(vs)
 		i := 0
 		for it := m.Iterator(); it.Next(); i++ {
 			if i >= len(order) || it.Key() != order[i] || it.Value() != cur[order[i]] {
@@ -216,6 +218,7 @@ func runLinkedSetOrder[T comparable](c *core.Ctx, d *Dom[T]) {
 		if !eqSlices(vs, order) {
 			c.Fail("order", "values", "%s.Values() = %s, insertion order is %s", name, short(vs), short(order))
 		}
+		ruin(vs)
 		i := 0
 		it := s.Iterator()
 		for it.Next() {
